@@ -9,73 +9,14 @@ Local Open Scope N_scope.
 (* precedingCrPos, if set, lies before p *)
 Definition cr_lt (cr : option nat) (p : nat) : Prop := match cr with None => True | Some q => (q < p)%nat end.
 
-Lemma pl_plain sep f : needs_quote sep f = false -> forall rest pos start dq cr acc,
-  parse_line sep (f ++ rest) pos start dq cr acc = parse_line sep rest (pos + length f) start dq cr acc.
-Proof.
-  induction f as [|c f IH]; intros H rest pos start dq cr acc.
-  - cbn. rewrite Nat.add_0_r. reflexivity.
-  - apply needs_quote_cons in H. destruct H as [Hc Hf]. apply special_false in Hc. destruct Hc as (H1 & H2 & H3 & H4).
-    cbn [app parse_line length]. neqb. cbn [andb]. rewrite IH by exact Hf. f_equal. lia.
-Qed.
-
 Lemma esc_cons c f : esc (c :: f) = (if c =? DQ then [DQ; DQ] else [c]) ++ esc f.
 Proof. reflexivity. Qed.
-
-Lemma pl_esc sep f : sane_sep sep -> forall rest pos start dq cr acc, Nat.even dq = false -> cr_lt cr pos ->
-  exists dq' cr',
-    parse_line sep (esc f ++ rest) pos start dq cr acc = parse_line sep rest (pos + length (esc f)) start dq' cr' acc /\
-    Nat.even dq' = false /\ cr_lt cr' (pos + length (esc f)).
-Proof.
-  intros (S1 & S2 & S3). induction f as [|c f IH]; intros rest pos start dq cr acc Hev Hcr.
-  - exists dq, cr. cbn. rewrite Nat.add_0_r. auto.
-  - rewrite esc_cons. destruct (N.eqb_spec c DQ) as [->|Hdq].
-    + cbn [app parse_line length]. rewrite !N.eqb_refl.
-      destruct (IH rest (S (S pos)) start (S (S dq)) cr acc) as (dq' & cr' & E & Hev' & Hcr').
-      { exact Hev. } { destruct cr; cbn in *; lia. }
-      exists dq', cr'. rewrite E. split; [f_equal; lia|]. split; [exact Hev'|].
-      replace (pos + S (S (length (esc f))))%nat with (S (S pos) + length (esc f))%nat by lia. exact Hcr'.
-    + cbn [app parse_line length]. neqb. rewrite Hev, !andb_false_r.
-      destruct (N.eqb_spec c CR) as [->|Hcr0].
-      * destruct (IH rest (S pos) start dq (Some pos) acc) as (dq' & cr' & E & Hev' & Hcr'); [exact Hev | cbn; lia |].
-        exists dq', cr'. rewrite E. split; [f_equal; lia|]. split; [exact Hev'|].
-        replace (pos + S (length (esc f)))%nat with (S pos + length (esc f))%nat by lia. exact Hcr'.
-      * destruct (IH rest (S pos) start dq cr acc) as (dq' & cr' & E & Hev' & Hcr'); [exact Hev | destruct cr; cbn in *; lia |].
-        exists dq', cr'. rewrite E. split; [f_equal; lia|]. split; [exact Hev'|].
-        replace (pos + S (length (esc f)))%nat with (S pos + length (esc f))%nat by lia. exact Hcr'.
-Qed.
 
 (* the scanner state after a rendered field that started at pos with a fresh state *)
 Definition after_field (q : bool) (p : nat) (dq : nat) (cr : option nat) : Prop :=
   Nat.even dq = true /\ negb (nat_is0 dq) = q /\ (cr = None \/ exists c, cr = Some c /\ (S c < p)%nat).
 
-Lemma pl_field sep q f : sane_sep sep -> (q = false -> needs_quote sep f = false) -> forall rest pos acc,
-  exists dq cr,
-    parse_line sep (rfield q f ++ rest) pos pos 0 None acc =
-    parse_line sep rest (pos + length (rfield q f)) pos dq cr acc /\
-    after_field q (pos + length (rfield q f)) dq cr.
-Proof.
-  intros S Hq rest pos acc. destruct q; cbn [rfield].
-  - unfold quoted. cbn [app parse_line length]. rewrite N.eqb_refl. rewrite <- app_assoc.
-    destruct (pl_esc sep f S ([DQ] ++ rest) (Datatypes.S pos) pos 1%nat None acc) as (dq' & cr' & E & Hev & Hcr); [reflexivity | exact I |].
-    rewrite E. cbn [app parse_line]. rewrite N.eqb_refl.
-    exists (Datatypes.S dq'), cr'. split; [f_equal; rewrite app_length; cbn; lia|].
-    unfold after_field. split; [rewrite Nat.even_succ, <- Nat.negb_even, Hev; reflexivity|]. split; [reflexivity|].
-    destruct cr' as [c|]; [right|left; reflexivity]. exists c. split; [reflexivity|].
-    cbn in Hcr. rewrite app_length. cbn. lia.
-  - exists 0%nat, None. split; [apply pl_plain; apply Hq; reflexivity|]. unfold after_field. auto.
-Qed.
-
 (* the four things that may follow a field *)
-Lemma pl_after_sep sep start p dq cr t acc : sane_sep sep -> Nat.even dq = true ->
-  parse_line sep (sep :: t) p start dq cr acc =
-  match t with
-  | [] => (mk_value start p dq :: acc, S p)
-  | _ => parse_line sep t (S p) (S p) 0 None (mk_value start p dq :: acc)
-  end.
-Proof.
-  intros (S1 & S2 & S3) Hev. cbn [parse_line]. neqb. rewrite N.eqb_refl, Hev. reflexivity.
-Qed.
-
 Lemma lf_end_ok cr p : (cr = None \/ exists c, cr = Some c /\ (S c < p)%nat) -> lf_end cr p = p.
 Proof.
   unfold lf_end. intros [->|(c & -> & Hc)].
@@ -83,24 +24,6 @@ Proof.
     replace (S p - 1)%nat with p by lia. rewrite (proj2 (Nat.eqb_neq (S p) p)) by lia. reflexivity.
   - destruct p as [|p]; [reflexivity|]. cbn [nat_is0 negb andb].
     replace (S p - 1)%nat with p by lia. rewrite (proj2 (Nat.eqb_neq c p)) by lia. reflexivity.
-Qed.
-
-Lemma pl_after_lf sep start p dq cr t acc : sane_sep sep -> Nat.even dq = true ->
-  (cr = None \/ exists c, cr = Some c /\ (S c < p)%nat) ->
-  parse_line sep (LF :: t) p start dq cr acc = (mk_value start p dq :: acc, S p).
-Proof.
-  intros (S1 & S2 & S3) Hev Hcr. cbn [parse_line]. assert (LF <> sep) by congruence.
-  change (LF =? DQ) with false. change (LF =? CR) with false. neqb. rewrite N.eqb_refl, Hev. cbn [andb].
-  rewrite lf_end_ok by exact Hcr. reflexivity.
-Qed.
-
-Lemma pl_after_crlf sep start p dq cr t acc : sane_sep sep -> Nat.even dq = true ->
-  parse_line sep (CR :: LF :: t) p start dq cr acc = (mk_value start p dq :: acc, S (S p)).
-Proof.
-  intros (S1 & S2 & S3) Hev. cbn [parse_line]. assert (LF <> sep) by congruence. assert (CR <> sep) by congruence.
-  change (CR =? DQ) with false. change (LF =? DQ) with false. change (LF =? CR) with false. change (CR =? CR) with true.
-  neqb. rewrite N.eqb_refl, Hev. cbn [andb].
-  unfold lf_end. cbn [nat_is0 negb andb]. replace (S p - 1)%nat with p by lia. rewrite Nat.eqb_refl. reflexivity.
 Qed.
 
 Lemma mk_value_fmeta pos q f dq : negb (nat_is0 dq) = q ->
@@ -116,47 +39,145 @@ Fixpoint rec_metas (pos : nat) (qs : list bool) (r : record) : list meta :=
   | _, _ => []
   end.
 
-Definition ends_with (c : N) (l : list N) : Prop := exists l', l = l' ++ [c].
-
 (* what follows a record: nothing, LF or CRLF *)
 Inductive line_rest : list N -> nat -> Prop :=
 | LR_eof : line_rest [] 0
 | LR_lf t : line_rest (LF :: t) 1
 | LR_crlf t : line_rest (CR :: LF :: t) 2.
 
-Lemma ends_with_app_sep sep a : ends_with sep (a ++ [sep]).
-Proof. exists a. reflexivity. Qed.
+(* ---------- the line scanner, as a function of the unread text alone ---------- *)
 
-Lemma pl_record sep : sane_sep sep -> forall r qs a rest n pos acc,
-  render_record sep qs r = Some a -> line_rest rest n -> (rest = [] -> ~ ends_with sep a) ->
-  parse_line sep (a ++ rest) pos pos 0 None acc = (rev (rec_metas pos qs r) ++ acc, (pos + length a + n)%nat).
+Fixpoint a_scan (sep : N) (l : list N) (pos start dq : nat) (cr : option nat) (acc : list meta) : list meta * nat :=
+  match l with
+  | [] => (mk_value start pos dq :: acc, pos)
+  | c :: t =>
+    if c =? DQ then a_scan sep t (S pos) start (S dq) cr acc
+    else if (c =? sep) && Nat.even dq then a_scan sep t (S pos) (S pos) 0 None (mk_value start pos dq :: acc)
+    else if c =? CR then a_scan sep t (S pos) start dq (Some pos) acc
+    else if (c =? LF) && Nat.even dq then (mk_value start (lf_end cr pos) dq :: acc, S pos)
+    else a_scan sep t (S pos) start dq cr acc
+  end.
+
+Lemma a_scan_pos sep : forall l pos start dq cr acc,
+  (pos <= snd (a_scan sep l pos start dq cr acc) <= pos + length l)%nat.
 Proof.
-  intros S. induction r as [|f r IH]; intros qs a rest n pos acc H LR Hend.
+  induction l as [|c t IH]; intros pos start dq cr acc; cbn [a_scan length].
+  - cbn. lia.
+  - destruct (c =? DQ); [specialize (IH (S pos) start (S dq) cr acc); lia|].
+    destruct ((c =? sep) && Nat.even dq); [specialize (IH (S pos) (S pos) 0%nat None (mk_value start pos dq :: acc)); lia|].
+    destruct (c =? CR); [specialize (IH (S pos) start dq (Some pos) acc); lia|].
+    destruct ((c =? LF) && Nat.even dq); [cbn; lia|].
+    specialize (IH (S pos) start dq cr acc); lia.
+Qed.
+
+Lemma parse_line_a_scan sep : forall l pos start dq cr acc,
+  parse_line sep l pos start dq cr acc = a_scan sep l pos start dq cr acc.
+Proof.
+  induction l as [|c t IH]; intros pos start dq cr acc; cbn [parse_line a_scan]; [reflexivity|].
+  destruct (c =? DQ); [apply IH|].
+  destruct ((c =? sep) && Nat.even dq).
+  - destruct t as [|c2 t2]; [|apply IH]. cbn [a_scan]. unfold mk_value. rewrite Nat.sub_diag. reflexivity.
+  - destruct (c =? CR); [apply IH|]. destruct ((c =? LF) && Nat.even dq); [reflexivity | apply IH].
+Qed.
+
+Lemma as_plain sep f : needs_quote sep f = false -> forall rest pos start dq cr acc,
+  a_scan sep (f ++ rest) pos start dq cr acc = a_scan sep rest (pos + length f) start dq cr acc.
+Proof.
+  induction f as [|c f IH]; intros H rest pos start dq cr acc.
+  - cbn. rewrite Nat.add_0_r. reflexivity.
+  - apply needs_quote_cons in H. destruct H as [Hc Hf]. apply special_false in Hc. destruct Hc as (H1 & H2 & H3 & H4).
+    cbn [app a_scan length]. neqb. cbn [andb]. rewrite IH by exact Hf. f_equal. lia.
+Qed.
+
+Lemma as_esc sep f : sane_sep sep -> forall rest pos start dq cr acc, Nat.even dq = false -> cr_lt cr pos ->
+  exists dq' cr',
+    a_scan sep (esc f ++ rest) pos start dq cr acc = a_scan sep rest (pos + length (esc f)) start dq' cr' acc /\
+    Nat.even dq' = false /\ cr_lt cr' (pos + length (esc f)).
+Proof.
+  intros (S1 & S2 & S3). induction f as [|c f IH]; intros rest pos start dq cr acc Hev Hcr.
+  - exists dq, cr. cbn. rewrite Nat.add_0_r. auto.
+  - rewrite esc_cons. destruct (N.eqb_spec c DQ) as [->|Hdq].
+    + cbn [app a_scan length]. rewrite !N.eqb_refl.
+      destruct (IH rest (S (S pos)) start (S (S dq)) cr acc) as (dq' & cr' & E & Hev' & Hcr').
+      { exact Hev. } { destruct cr; cbn in *; lia. }
+      exists dq', cr'. rewrite E. split; [f_equal; lia|]. split; [exact Hev'|].
+      replace (pos + S (S (length (esc f))))%nat with (S (S pos) + length (esc f))%nat by lia. exact Hcr'.
+    + cbn [app a_scan length]. neqb. rewrite Hev, !andb_false_r.
+      destruct (N.eqb_spec c CR) as [->|Hcr0].
+      * destruct (IH rest (S pos) start dq (Some pos) acc) as (dq' & cr' & E & Hev' & Hcr'); [exact Hev | cbn; lia |].
+        exists dq', cr'. rewrite E. split; [f_equal; lia|]. split; [exact Hev'|].
+        replace (pos + S (length (esc f)))%nat with (S pos + length (esc f))%nat by lia. exact Hcr'.
+      * destruct (IH rest (S pos) start dq cr acc) as (dq' & cr' & E & Hev' & Hcr'); [exact Hev | destruct cr; cbn in *; lia |].
+        exists dq', cr'. rewrite E. split; [f_equal; lia|]. split; [exact Hev'|].
+        replace (pos + S (length (esc f)))%nat with (S pos + length (esc f))%nat by lia. exact Hcr'.
+Qed.
+
+Lemma as_field sep q f : sane_sep sep -> (q = false -> needs_quote sep f = false) -> forall rest pos acc,
+  exists dq cr,
+    a_scan sep (rfield q f ++ rest) pos pos 0 None acc =
+    a_scan sep rest (pos + length (rfield q f)) pos dq cr acc /\
+    after_field q (pos + length (rfield q f)) dq cr.
+Proof.
+  intros S Hq rest pos acc. destruct q; cbn [rfield].
+  - unfold quoted. cbn [app a_scan length]. rewrite N.eqb_refl. rewrite <- app_assoc.
+    destruct (as_esc sep f S ([DQ] ++ rest) (Datatypes.S pos) pos 1%nat None acc) as (dq' & cr' & E & Hev & Hcr); [reflexivity | exact I |].
+    rewrite E. cbn [app a_scan]. rewrite N.eqb_refl.
+    exists (Datatypes.S dq'), cr'. split; [f_equal; rewrite app_length; cbn; lia|].
+    unfold after_field. split; [rewrite Nat.even_succ, <- Nat.negb_even, Hev; reflexivity|]. split; [reflexivity|].
+    destruct cr' as [c|]; [right|left; reflexivity]. exists c. split; [reflexivity|].
+    cbn in Hcr. rewrite app_length. cbn. lia.
+  - exists 0%nat, None. split; [apply as_plain; apply Hq; reflexivity|]. unfold after_field. auto.
+Qed.
+
+Lemma as_after_sep sep start p dq cr t acc : sane_sep sep -> Nat.even dq = true ->
+  a_scan sep (sep :: t) p start dq cr acc = a_scan sep t (S p) (S p) 0 None (mk_value start p dq :: acc).
+Proof. intros (S1 & S2 & S3) Hev. cbn [a_scan]. neqb. rewrite N.eqb_refl, Hev. reflexivity. Qed.
+
+Lemma as_after_lf sep start p dq cr t acc : sane_sep sep -> Nat.even dq = true ->
+  (cr = None \/ exists c, cr = Some c /\ (S c < p)%nat) ->
+  a_scan sep (LF :: t) p start dq cr acc = (mk_value start p dq :: acc, S p).
+Proof.
+  intros (S1 & S2 & S3) Hev Hcr. cbn [a_scan]. assert (LF <> sep) by congruence.
+  change (LF =? DQ) with false. change (LF =? CR) with false. neqb. rewrite N.eqb_refl, Hev. cbn [andb].
+  rewrite lf_end_ok by exact Hcr. reflexivity.
+Qed.
+
+Lemma as_after_crlf sep start p dq cr t acc : sane_sep sep -> Nat.even dq = true ->
+  a_scan sep (CR :: LF :: t) p start dq cr acc = (mk_value start p dq :: acc, S (S p)).
+Proof.
+  intros (S1 & S2 & S3) Hev. cbn [a_scan]. assert (LF <> sep) by congruence. assert (CR <> sep) by congruence.
+  change (CR =? DQ) with false. change (LF =? DQ) with false. change (LF =? CR) with false. change (CR =? CR) with true.
+  neqb. rewrite N.eqb_refl, Hev. cbn [andb].
+  unfold lf_end. cbn [nat_is0 negb andb]. replace (S p - 1)%nat with p by lia. rewrite Nat.eqb_refl. reflexivity.
+Qed.
+
+(* a rendered record, whatever follows it: the stream scanner has no F24 *)
+Lemma as_record sep : sane_sep sep -> forall r qs a rest n pos acc,
+  render_record sep qs r = Some a -> line_rest rest n ->
+  a_scan sep (a ++ rest) pos pos 0 None acc = (rev (rec_metas pos qs r) ++ acc, (pos + length a + n)%nat).
+Proof.
+  intros S. induction r as [|f r IH]; intros qs a rest n pos acc H LR.
   - rewrite render_record_nil in H. discriminate.
   - apply render_record_inv in H.
     destruct H as (q & qs' & -> & Hq & [(-> & -> & ->)|(Hne & b & Hb & ->)]).
-    + (* last field of the record *)
-      destruct (pl_field sep q f S Hq rest pos acc) as (dq & cr & E & AF). destruct AF as (Hev & Hq' & Hcr). rewrite E.
+    + destruct (as_field sep q f S Hq rest pos acc) as (dq & cr & E & AF). destruct AF as (Hev & Hq' & Hcr). rewrite E.
       cbn [rec_metas rev app].
       destruct LR.
-      * cbn [parse_line]. rewrite mk_value_fmeta by exact Hq'. f_equal. lia.
-      * rewrite pl_after_lf by assumption. rewrite mk_value_fmeta by exact Hq'. f_equal. lia.
-      * rewrite pl_after_crlf by assumption. rewrite mk_value_fmeta by exact Hq'. f_equal. lia.
+      * cbn [a_scan]. rewrite mk_value_fmeta by exact Hq'. f_equal. lia.
+      * rewrite as_after_lf by assumption. rewrite mk_value_fmeta by exact Hq'. f_equal. lia.
+      * rewrite as_after_crlf by assumption. rewrite mk_value_fmeta by exact Hq'. f_equal. lia.
     + rewrite <- app_assoc. cbn [app].
-      destruct (pl_field sep q f S Hq (sep :: b ++ rest) pos acc) as (dq & cr & E & AF). destruct AF as (Hev & Hq' & Hcr). rewrite E.
-      rewrite pl_after_sep by assumption. rewrite mk_value_fmeta by exact Hq'.
-      assert (Hnn : b ++ rest <> []).
-      { intros Hnil. apply app_eq_nil in Hnil. destruct Hnil as [-> ->].
-        apply (Hend eq_refl). exists (rfield q f). reflexivity. }
-      destruct (b ++ rest) as [|x y] eqn:Ebr; [congruence|]. rewrite <- Ebr.
+      destruct (as_field sep q f S Hq (sep :: b ++ rest) pos acc) as (dq & cr & E & AF). destruct AF as (Hev & Hq' & Hcr). rewrite E.
+      rewrite as_after_sep by assumption. rewrite mk_value_fmeta by exact Hq'.
       rewrite (IH qs' b rest n _ _ Hb LR).
-      * destruct r as [|f2 r']; [congruence|]. destruct qs' as [|q2 qs'']; [rewrite render_record_nilq in Hb; discriminate|].
-        cbn [rec_metas rev]. rewrite <- !app_assoc. cbn [app]. f_equal. rewrite !app_length. cbn [length]. lia.
-      * intros -> (l' & El). apply (Hend eq_refl).
-        destruct b as [|b0 b'] using rev_ind; [rewrite app_nil_r in Ebr; discriminate|].
-        clear IHb'. exists (rfield q f ++ sep :: b'). rewrite <- app_assoc. cbn [app]. f_equal. f_equal.
-        apply app_inj_tail in El. destruct El as [_ ->]. reflexivity.
+      destruct r as [|f2 r']; [congruence|]. destruct qs' as [|q2 qs'']; [rewrite render_record_nilq in Hb; discriminate|].
+      cbn [rec_metas rev]. rewrite <- !app_assoc. cbn [app]. f_equal. rewrite !app_length. cbn [length]. lia.
 Qed.
+
+Lemma pl_record sep : sane_sep sep -> forall r qs a rest n pos acc,
+  render_record sep qs r = Some a -> line_rest rest n ->
+  parse_line sep (a ++ rest) pos pos 0 None acc = (rev (rec_metas pos qs r) ++ acc, (pos + length a + n)%nat).
+Proof. intros S r qs a rest n pos acc H LR. rewrite parse_line_a_scan. apply as_record; assumption. Qed.
 
 (* ---------- the values behind the metas ---------- *)
 
@@ -352,26 +373,20 @@ Qed.
 
 Lemma m_parse_next_line_record sep : sane_sep sep -> forall r pre a rest n qs rec,
   r_src r = pre ++ a ++ rest -> r_pos r = length pre -> render_record sep qs rec = Some a ->
-  line_rest rest n -> (rest = [] -> ~ ends_with sep a) -> a ++ rest <> [] ->
+  line_rest rest n -> a ++ rest <> [] ->
   m_parse_next_line sep r =
     (true, mkM (r_src r) (r_headers r) (rec_metas (length pre) qs rec) (length pre + length a + n)
                (S (r_line r)) (r_rowidx r) (r_validx r) (length (r_metas r))).
 Proof.
-  intros S r pre a rest n qs rec Hsrc Hpos Hrec LR Hend Hne.
+  intros S r pre a rest n qs rec Hsrc Hpos Hrec LR Hne.
   unfold m_parse_next_line, m_is_end. rewrite Hsrc, Hpos.
   replace (Nat.leb (length (pre ++ a ++ rest)) (length pre)) with false.
   2:{ symmetry. apply Nat.leb_gt. rewrite app_length. destruct (a ++ rest); [congruence|]. cbn. lia. }
-  rewrite skipn_app_exact. rewrite (pl_record sep S rec qs a rest n (length pre) [] Hrec LR Hend).
+  rewrite skipn_app_exact. rewrite (pl_record sep S rec qs a rest n (length pre) [] Hrec LR).
   rewrite app_nil_r, rev_involutive. reflexivity.
 Qed.
 
 Definition widths_ok (hdr : record) (t : table) : bool := forallb (fun rec => Nat.eqb (length rec) (length hdr)) t.
-
-Lemma ends_with_app c a b : b <> [] -> ends_with c b -> ends_with c (a ++ b).
-Proof. intros _ (l & ->). exists (a ++ l). rewrite app_assoc. reflexivity. Qed.
-
-Lemma not_ends_with_nil c : ~ ends_with c [].
-Proof. intros (l & E). destruct l; discriminate. Qed.
 
 Lemma eol_line_rest e b : line_rest (eol_bytes e ++ b) (length (eol_bytes e)).
 Proof. destruct e; cbn; constructor. Qed.
@@ -382,13 +397,12 @@ Definition read_rows (hdr : record) (keys : list field) (t : table) : list (list
 Lemma load_rows_spec sep keys hdr : sane_sep sep ->
   forall t chs final body pre fuel r acc,
   ((t = [] /\ body = []) \/ render sep chs final t = Some body) ->
-  ~ ends_with sep body ->
   r_src r = pre ++ body -> r_pos r = length pre -> r_headers r = hdr ->
   (length body < fuel)%nat ->
   m_load_rows fuel sep keys r acc =
     if widths_ok hdr t then Ok (acc ++ read_rows hdr keys t) else Err ParsingError.
 Proof.
-  intros S. induction t as [|rec t IH]; intros chs final body pre fuel r acc Hb Hend Hsrc Hpos Hhdr Hfuel.
+  intros S. induction t as [|rec t IH]; intros chs final body pre fuel r acc Hb Hsrc Hpos Hhdr Hfuel.
   - destruct Hb as [[_ ->]|Hb]; [|rewrite render_nil in Hb; discriminate].
     destruct fuel as [|fuel]; [lia|]. cbn [m_load_rows]. unfold m_is_end. rewrite Hsrc, Hpos, app_nil_r, Nat.leb_refl.
     cbn. rewrite app_nil_r. reflexivity.
@@ -415,10 +429,8 @@ Proof.
     unfold m_is_end. rewrite Hsrc, Hpos.
     replace (Nat.leb (length (pre ++ a ++ rest)) (length pre)) with false.
     2:{ symmetry. apply Nat.leb_gt. rewrite app_length. destruct (a ++ rest); [congruence|]. cbn. lia. }
-    assert (Hend' : rest = [] -> ~ ends_with sep a).
-    { intros ->. rewrite app_nil_r in Hend. exact Hend. }
     unfold m_parse_next_row.
-    rewrite (m_parse_next_line_record sep S r pre a rest n (ch_quotes ch) rec Hsrc Hpos Ha LR Hend' Hbne).
+    rewrite (m_parse_next_line_record sep S r pre a rest n (ch_quotes ch) rec Hsrc Hpos Ha LR Hbne).
     cbn [r_headers r_metas r_line r_prev r_src r_pos r_rowidx andb negb].
     rewrite (rec_metas_length sep rec _ a _ Ha), Hhdr.
     unfold widths_ok. cbn [forallb]. fold (widths_ok hdr t). change (@length field) with (@length (list N)) in *. rewrite (Nat.eqb_sym (@length (list N) rec) (@length (list N) hdr)).
@@ -433,9 +445,6 @@ Proof.
     etransitivity.
     { apply (IH chs' final tail (pre ++ a ++ firstn n rest) fuel r2 (acc ++ [read_spec hdr rec keys 0])).
       + exact Htail.
-      + intros He. apply Hend. rewrite Erest.
-        destruct tail as [|x y]; [exfalso; apply (not_ends_with_nil _ He)|].
-        rewrite app_assoc. apply ends_with_app; [discriminate | exact He].
       + rewrite B1, Hsrc. rewrite Erest at 1. rewrite <- !app_assoc. reflexivity.
       + rewrite B4, !app_length, Hn. lia.
       + exact B2.
@@ -498,17 +507,16 @@ Definition load_expect (hdr : record) (keys : list field) (rows : table) : outco
   if widths_ok hdr rows then Ok (read_rows hdr keys rows) else Err ParsingError.
 
 Theorem csv_load_render sep chs final hdr rows text keys : allowed sep ->
-  render sep chs final (hdr :: rows) = Some text -> ~ ends_with sep text ->
+  render sep chs final (hdr :: rows) = Some text ->
   csv_load sep keys text = load_expect hdr keys rows.
 Proof.
-  intros A R Hend. pose proof (allowed_sane sep A) as S.
+  intros A R. pose proof (allowed_sane sep A) as S.
   unfold csv_load. rewrite (allowed_validate sep A). cbn [negb].
   pose proof (render_nonempty _ _ _ _ _ R) as Hne.
   destruct (render_shape _ _ _ _ _ _ R) as (ch & chs' & a & rest & n & tail & -> & Ha & -> & LR & Hprog & Erest & Hn & Htail).
   unfold m_new.
   rewrite (m_parse_next_line_record sep S (mkM (a ++ rest) [] [] 0 0 0 0 0) [] a rest n (ch_quotes ch) hdr);
     try reflexivity; try assumption.
-  2:{ intros ->. rewrite app_nil_r in Hend. exact Hend. }
   cbn [r_src r_headers r_metas r_pos r_line r_rowidx r_validx r_prev length Nat.add].
   match goal with |- context [m_read_headers _ ?rr []] => set (r1 := rr) end.
   destruct (m_read_headers_spec hdr (length (rec_metas 0 (ch_quotes ch) hdr)) r1 []) as (r2 & E2 & (B1 & B2 & B3 & B4)).
@@ -518,9 +526,6 @@ Proof.
   unfold load_expect.
   apply (load_rows_spec sep keys hdr S rows chs' final tail (a ++ firstn n rest)).
   - exact Htail.
-  - intros He. apply Hend. rewrite Erest.
-    destruct tail as [|x y]; [exfalso; apply (not_ends_with_nil _ He)|].
-    rewrite app_assoc. apply ends_with_app; [discriminate | exact He].
   - cbn [r_src]. rewrite B1. rewrite Erest at 1. rewrite <- app_assoc. reflexivity.
   - cbn [r_pos]. rewrite B4, app_length, Hn. reflexivity.
   - reflexivity.
@@ -546,40 +551,19 @@ Proof.
   unfold uniform in U. rewrite Forall_forall in U. apply read_spec_nodup; [exact ND | apply U; exact Hr].
 Qed.
 
-(* every RFC rendering of a table loads to its rows, for every list of requested column names — unless the text ends with
-   the separator (F24) *)
-Theorem csv_load_rfc_outside sep chs final hdr rows text keys : allowed sep -> NoDup hdr -> uniform hdr rows ->
-  render sep chs final (hdr :: rows) = Some text -> ~ ends_with sep text ->
+(* every RFC rendering of a table loads to its rows, for every list of requested column names *)
+Theorem csv_load_rfc sep chs final hdr rows text keys : allowed sep -> NoDup hdr -> uniform hdr rows ->
+  render sep chs final (hdr :: rows) = Some text ->
   csv_load sep keys text = Ok (select hdr keys rows).
 Proof.
-  intros A ND U R He. rewrite (csv_load_render sep chs final hdr rows text keys A R He).
+  intros A ND U R. rewrite (csv_load_render sep chs final hdr rows text keys A R).
   unfold load_expect. rewrite (widths_ok_uniform _ _ U), (read_rows_select _ _ _ ND U). reflexivity.
 Qed.
 
-Theorem csv_load_width_outside sep chs final hdr recs text keys : allowed sep ->
+Theorem csv_load_width sep chs final hdr recs text keys : allowed sep ->
   render sep chs final (hdr :: recs) = Some text -> Exists (fun r => length r <> length hdr) recs ->
-  ~ ends_with sep text -> csv_load sep keys text = Err ParsingError.
+  csv_load sep keys text = Err ParsingError.
 Proof.
-  intros A R E He. rewrite (csv_load_render sep chs final hdr recs text keys A R He).
+  intros A R E. rewrite (csv_load_render sep chs final hdr recs text keys A R).
   unfold load_expect. rewrite (widths_ok_ragged _ _ E). reflexivity.
-Qed.
-
-(* F24: a,b CRLF foo,   — the empty last field is dropped, the row is rejected *)
-Lemma csv_load_rfc_refuted : exists sep chs final hdr rows text keys, allowed sep /\ NoDup hdr /\ uniform hdr rows /\
-  render sep chs final (hdr :: rows) = Some text /\ csv_load sep keys text <> Ok (select hdr keys rows).
-Proof.
-  exists 44, [mkChoice [false; false] EolCRLF; mkChoice [false; false] EolCRLF], false,
-         [[97]; [98]], [[[102; 111; 111]; []]], [97; 44; 98; 13; 10; 102; 111; 111; 44], [[97]; [98]].
-  split; [cbn; auto|]. split; [repeat constructor; cbn; intuition discriminate|]. split; [repeat constructor|].
-  split; [reflexivity|]. vm_compute. discriminate.
-Qed.
-
-(* F24: a,b CRLF 1,2,   — three fields under a two-column header, accepted *)
-Lemma csv_load_width_refuted : exists sep chs final hdr recs text keys, allowed sep /\
-  render sep chs final (hdr :: recs) = Some text /\ Exists (fun r => length r <> length hdr) recs /\
-  csv_load sep keys text <> Err ParsingError.
-Proof.
-  exists 44, [mkChoice [false; false] EolCRLF; mkChoice [false; false; false] EolCRLF], false,
-         [[97]; [98]], [[[49]; [50]; []]], [97; 44; 98; 13; 10; 49; 44; 50; 44], [[97]; [98]].
-  split; [cbn; auto|]. split; [reflexivity|]. split; [constructor; cbn; discriminate|]. vm_compute. discriminate.
 Qed.
